@@ -94,6 +94,15 @@ static std::string handle(const std::string & kind, const std::string & path)
       g.set_process(bxdecay0::dbd_gA::PROCESS_G0);
       g.set_shooting(kind == "pdf" ? bxdecay0::dbd_gA::SHOOTING_REJECTION : bxdecay0::dbd_gA::SHOOTING_INVERSE_TRANSFORM_METHOD);
       const double us[] = {1e-12, 0.2, 0.4, 0.6, 0.8, 1 - 1e-12};
+      auto tables_finite = [&]() {
+        // what the object reports about the tables it loaded must be made of finite numbers
+        std::ostringstream os;
+        g.print(os, "", "");
+        if (kind == "pdf") g.plot_interpolated_pdf(os, 12);
+        std::string t = os.str();
+        for (auto & ch : t) ch = (char)tolower(ch);
+        return t.find("nan") == std::string::npos && t.find("inf") == std::string::npos;
+      };
       try {
         g.initialize();
       } catch (std::exception & e) {
@@ -126,6 +135,7 @@ static std::string handle(const std::string & kind, const std::string & path)
         }
         throw;
       }
+      if (!tables_finite()) return "{\"verdict\":\"garbage\",\"detail\":\"the loaded table holds non-finite values (print / plot_interpolated_pdf show nan or inf)\"}";
       for (double a : us)
         for (double b : us) {
           Seq r;
@@ -135,6 +145,10 @@ static std::string handle(const std::string & kind, const std::string & path)
             g.shoot_e1_e2(r, e1, e2);
           } catch (std::logic_error &) {
             continue; // "could not find the c.d.f. sample": an error, as allowed
+          } catch (std::runtime_error & e) {
+            if (std::string(e.what()).find("HORIZON") != std::string::npos)
+              return "{\"verdict\":\"unbounded\",\"detail\":\"the loaded table makes the sampler loop without end (200000 deviates consumed)\"}";
+            throw;
           }
           if (!std::isfinite(e1) || !std::isfinite(e2) || e1 < 0 || e2 < 0)
             return "{\"verdict\":\"garbage\",\"detail\":\"loaded table yields energies (" + std::to_string(e1) + "," + std::to_string(e2) + ")\"}";
